@@ -21,6 +21,7 @@ def check(repo, tier="quick"):
         "dict type vs the serdes function reading the flag; level keys vs the validator's assert_level_constraint calls for the same "
         "field; composition order of iter_source_parameter_options vs SourceParameters; construction of the yielded dictionaries."
     )
+    res.rule("C15.f", "bug patterns with zero expected instances in this property's modules: swapped same-named arguments, lower-bound guard followed by a decrement of the guarded value, presence of a dictionary entry decided by truthiness")
     res.rule("C15.a", "position i of a preset-backed table's `parameters` is the VideoParameters key the decoder's preset function assigns from field i of the vc2_data_tables namedtuple")
     res.rule("C15.b", "table keys: dt_key/flag/index are entries of dict_type, vp_key of VideoParameters; dict_type is the context type that reads the flag; level keys equal the validator's keys for that syntax function")
     res.rule("C15.c", "iter_source_parameter_options composes the eight generators in SourceParameters' entry order; colour spec nests primaries/matrix/transfer exactly under index 0")
@@ -36,6 +37,10 @@ def check(repo, tier="quick"):
     from .c16 import level_filter_rule
 
     level_filter_rule(repo, res, "C15.e")
+    from .. import lints as _lints
+
+    _lints.rule(repo, res, "C15.f", ['encoder.sequence_header', 'pseudocode.video_parameters'])
+    res.floor("C15.f", 3)
     res.floor("C15.e", 1)
     res.floor("C15.a", 4)
     res.floor("C15.b", 40)
